@@ -712,32 +712,29 @@ add_representer(type(None), _none_representer)
 
 
 def _get_metadata_end(data, beg):
-    _beg = beg+2
-    def _readline():
-        nonlocal _beg
-        end = data.find('}}', _beg)
-        if end == -1:
-            end = len(data)
-        else:
-            end += 2
+    # scan the python literal that follows the opening '{{': the block ends at the first '}}' that is
+    # neither inside a string nor inside nested brackets (so "{{'x': {'y': 1}}}", "{{'x': '}}'}}" and
+    # literals spanning several lines are all fine)
+    pos = beg + 2
+    depth = 0
+    while pos < len(data):
+        char = data[pos]
+        if char in '\'"':
+            quote = data[pos:pos+3] if data[pos:pos+3] in ("'''", '"""') else char
+            pos += len(quote)
+            while pos < len(data) and not data.startswith(quote, pos):
+                pos += 2 if data[pos] == '\\' else 1
+            pos += len(quote)
+            continue
+        if char in '([{':
+            depth += 1
+        elif char in ')]}':
+            if depth == 0:
+                return pos + 2 if data.startswith('}}', pos) else None
+            depth -= 1
+        pos += 1
 
-        ret = data[_beg:end]
-        _beg = end
-        return ret.encode('utf8')
-         
-    last_close = False
-    end = None
-    for tok in tokenize.tokenize(_readline):
-        if tok.type == token.OP and tok.string == '}':
-            if last_close:
-                end = _beg
-                break
-            else:
-                last_close = True
-        else:
-            last_close = False
-
-    return end
+    return None
 
 
 def _get_metadata_content(data):
